@@ -283,6 +283,38 @@ def mPost : Pep508.Marker := cmp1 (.lit false (b! "3.9.6.post1")) .ne (.var (b! 
 theorem marker_post_lhs_ne_refuted : ¬ MarkerAgrees svPost pPost mPost [] := by
   show ¬ (_ = _); decide
 
+/-- F-C16-blank-literal: `python_version == ' 3.9'`. semver: `Parse(" 3.9")` fails, so the
+library compares the strings "3.9" and " 3.9" (false); packaging strips the blanks: True. -/
+def svBlank : Semver := { isVersion := fun v => v == b! "3.9", cmpLeaf := fun _ _ _ => .panic "not consulted" }
+def pBlank : Packaging := ⟨fun op rhs => if op == .eq && rhs == b! " 3.9" then some (fun lhs => lhs == b! "3.9") else none⟩
+def mBlank : Pep508.Marker := cmp1 (.var (b! "python_version")) .eq (.lit false (b! " 3.9"))
+theorem marker_blank_literal_refuted : ¬ MarkerAgrees svBlank pBlank mBlank [] := by
+  show ¬ (_ = _); decide
+
+/-- F-C16-local-version: `'3.9.6+local' == implementation_version` (value 3.9.6). semver: the
+constraint `==3.9.6` does not match `3.9.6+local`; packaging ignores the candidate's local
+segment when the specifier has none: True. -/
+def pLocal : Packaging := ⟨fun op rhs => if op == .eq && rhs == b! "3.9.6" then some (fun _ => true) else none⟩
+def mLocal : Pep508.Marker := cmp1 (.lit false (b! "3.9.6+local")) .eq (.var (b! "implementation_version"))
+theorem marker_local_version_refuted : ¬ MarkerAgrees svPost pLocal mLocal [] := by
+  show ¬ (_ = _); decide
+
+/-- F-C16-epoch-lhs: `'1!3.9' > python_version` (value 3.9). semver: `>3.9` does not match
+`1!3.9`; packaging: epoch 1 is greater, True. -/
+def pEpoch : Packaging := ⟨fun op rhs => if op == .gt && rhs == b! "3.9" then some (fun _ => true) else none⟩
+def mEpoch : Pep508.Marker := cmp1 (.lit false (b! "1!3.9")) .gt (.var (b! "python_version"))
+theorem marker_epoch_lhs_refuted : ¬ MarkerAgrees svPost pEpoch mEpoch [] := by
+  show ¬ (_ = _); decide
+
+/-- F-C16-underscore-sep: `implementation_version >= '3.9.6_rc1'`. semver: `Parse` accepts
+"3.9.6_rc1" but `ParseConstraint(">=3.9.6_rc1")` fails, so the marker does not parse and the
+resolution aborts; packaging: True. -/
+def svUnderscore : Semver := { isVersion := fun _ => true, cmpLeaf := fun _ _ _ => .err }
+def pUnderscore : Packaging := ⟨fun op rhs => if op == .ge && rhs == b! "3.9.6_rc1" then some (fun _ => true) else none⟩
+def mUnderscore : Pep508.Marker := cmp1 (.var (b! "implementation_version")) .ge (.lit false (b! "3.9.6_rc1"))
+theorem marker_underscore_sep_refuted : ¬ MarkerAgrees svUnderscore pUnderscore mUnderscore [] := by
+  show ¬ (_ = _); decide
+
 /-- F-C16-eqeqeq-case: `platform_system === 'linux'` (the value is "Linux"). Library: raw
 string equality, false; packaging: `Specifier("===linux")` compares case-insensitively, True. -/
 def svNoVersion : Semver := { isVersion := fun _ => false, cmpLeaf := fun _ _ _ => .panic "not consulted" }
